@@ -196,6 +196,19 @@ EXTRA6 = {
 for _k, _v in EXTRA6.items():
     EXTRA[_k] = EXTRA.get(_k, "") + _v
 
+# added in round 7
+EXTRA7 = {
+    "C01": " Behaviours in which the client deviates instead of answering the Encryption Request are replayed too; the probe also answers the Encryption Request.",
+    "C07": " Client frames half received when a Keep Alive falls due.",
+    "C13": " 70,000 (thorough 300,000) other keys next to an exhausted one; address-less headers beyond the limit; one address through two balancers; IPv4-mapped addresses.",
+    "C15": " IPv4-mapped addresses ip4m / ip4n; one address through two balancers; address-less headers beyond the limit; listen() that returns before a stop is an observation.",
+    "C16": " A second well-behaved client right behind the first; flood and well-behaved client in IPv4-mapped form.",
+    "C17": " listen() that returns before a stop was requested is reported (L_ListensUntilStopRequested).",
+    "C19": " The mock service is built from the published .proto files kept with the harness.",
+}
+for _k, _v in EXTRA7.items():
+    EXTRA[_k] = EXTRA.get(_k, "") + _v
+
 NOT_YET = {
     "C05": "check not built yet (Cipher.tla planned)", "C07": "check not built yet (ConnTimed.tla planned)",
     "C08": "check not built yet (Frames.tla planned)", "C09": "check not built yet (Wire.tla planned)",
